@@ -249,6 +249,10 @@ func main() {
 	var nilMap map[string]int
 	var nilErr error
 	j1 := fpgo.Maybe.Just(1)
+	var ifaceFive interface{} = 5
+	var ifaceNil interface{}
+	var errBoom error = fmt.Errorf("boom")
+	var errNil error
 	vals := []val{
 		{"true", true}, {"false", false},
 		{"int 0", 0}, {"int 1", 1}, {"int min", math.MinInt64}, {"int max", math.MaxInt64},
@@ -272,6 +276,7 @@ func main() {
 		{"pointer to struct embedding a nil error", &wrappedErr{}}, {"error value", fmt.Errorf("boom")}, {"Stringer value", &label{"x"}},
 		{"typed nil pointer with a nil-tolerant String method", (*tag)(nil)}, {"pointer with a nil-tolerant String method", &tag{"t"}},
 		{"typed nil *time.Location", (*time.Location)(nil)},
+		{"pointer to an interface holding 5", &ifaceFive}, {"pointer to a nil interface", &ifaceNil}, {"pointer to an error", &errBoom}, {"pointer to a nil error", &errNil},
 	}
 	var evals, nontrivial int
 	var samples lib.Samples
